@@ -11,7 +11,6 @@ from .core import (
     BYTES,
     INT,
     KIND_SORT,
-    LSTR,
     PYVAL,
     STR,
     SV,
@@ -24,7 +23,7 @@ from .core import (
 )
 from .heap import MapRef, Row, SeqRef
 from .laws import lawbook
-from .values import BoundMethod, DictView, IFunc, LazyMap, ModelFn, Obj, Opaque, SeqVal
+from .values import BoundMethod, DictView, IFunc, LazyMap, ModelFn, Obj, Opaque, SeqVal, SymList
 
 CONCRETE_SCALARS = (int, str, bool, float, bytes, type(None), enum.Enum)
 
@@ -33,7 +32,7 @@ def all_concrete(vals):
     for v in vals:
         if getattr(v, "_pyvc_symbolic", False):
             return False
-        if isinstance(v, (SV, Obj, Row, MapRef, SeqRef, SeqVal, LazyMap, DictView, BoundMethod, IFunc, Opaque, ExcVal, LazyStr)):
+        if isinstance(v, (SV, Obj, Row, MapRef, SeqRef, SeqVal, LazyMap, SymList, DictView, BoundMethod, IFunc, Opaque, ExcVal, LazyStr)):
             return False
         if isinstance(v, (list, tuple, set, frozenset)):
             if not all_concrete(list(v)):
@@ -111,7 +110,7 @@ def truth(it, v):
         if v.kind == "int":
             return v.term != 0
         if v.kind == "str":
-            return z3.Length(v.term) > 0
+            return lawbook(it.ctx).length(v.term) > 0
         if v.kind == "bytes":
             return z3.Length(v.term) > 0
         if v.kind == "any":
@@ -119,7 +118,7 @@ def truth(it, v):
             return z3.And(
                 z3.Not(PYVAL.is_none(t)),
                 z3.Implies(PYVAL.is_I(t), PYVAL.iv(t) != 0),
-                z3.Implies(PYVAL.is_S(t), z3.Length(PYVAL.sv(t)) > 0),
+                z3.Implies(PYVAL.is_S(t), lawbook(it.ctx).length(PYVAL.sv(t)) > 0),
                 z3.Implies(PYVAL.is_B(t), PYVAL.bv(t)),
             )
         if v.kind == "real":
@@ -140,7 +139,9 @@ def truth(it, v):
     if isinstance(v, (BoundMethod, IFunc, ModelFn, Opaque, ExcVal)):
         return True
     if isinstance(v, LazyMap):
-        return z3.Length(v.src.term) > 0
+        return v.src.len_t > 0
+    if isinstance(v, SymList):
+        return v.len_t > 0
     from .contract import QuantVal, truth_of_quant
 
     if isinstance(v, QuantVal):
@@ -159,7 +160,7 @@ def to_str(it, v, node=None):
         if v.kind == "int":
             return mk("str", lawbook(it.ctx).str_of_int(v.term))
         if v.kind == "bool":
-            return mk("str", z3.If(v.term, z3.StringVal("True"), z3.StringVal("False")))
+            return mk("str", z3.If(v.term, lift("True")[1], lift("False")[1]))
         raise Unsupported(f"str() of kind {v.kind}")
     if isinstance(v, (Obj, Row, ExcVal, Opaque, MapRef, SeqRef, SeqVal, BoundMethod, IFunc)):
         return opaque_str(it, "str")
@@ -180,7 +181,7 @@ def concat_str(it, parts):
         return ""
     if len(terms) == 1:
         return mk("str", terms[0])
-    return mk("str", z3.Concat(*terms))
+    return mk("str", lawbook(it.ctx).concat(terms))
 
 
 def to_int(it, v, node=None):
@@ -194,7 +195,6 @@ def to_int(it, v, node=None):
             return mk("int", z3.If(v.term, 1, 0))
         if v.kind == "str":
             lb = lawbook(it.ctx)
-            lb.int_literal_facts(v.term)
             ok, val = lb.int_of_str(v.term)
             if not it.branch(ok, node):
                 it.raise_(ValueError, "invalid literal for int()", node=node)
@@ -251,7 +251,7 @@ def binop(it, op, a, b, node=None):
     ka, ta = _kind_term(a)
     kb, tb = _kind_term(b)
     if ka == "str" and kb == "str" and op == "Add":
-        return mk("str", z3.Concat(ta, tb))
+        return mk("str", lawbook(it.ctx).concat([ta, tb]))
     if ka == "str" and op == "Mod":
         raise Unsupported("% formatting with symbolic operands")
     if ka in ("int", "bool") and kb in ("int", "bool"):
@@ -298,6 +298,8 @@ def _is_bytes(v):
 
 def _seq_term(v):
     if isinstance(v, SeqVal):
+        return v.term
+    if isinstance(v, SV) and v.kind in ("bytes", "qstr"):
         return v.term
     if _is_bytes(v):
         return lift(bytes(v))[1]
@@ -554,7 +556,7 @@ def contains(it, container, item, node=None):
         kc, tc = lift(container)
         ki, ti = lift(item)
         if kc == "str" and ki == "str":
-            return z3.Contains(tc, ti)
+            return lawbook(it.ctx).contains(tc, ti)
     if isinstance(container, (SeqVal, SeqRef, bytes, bytearray)):
         tc = _seq_term(container)
         if isinstance(item, (SeqVal, bytes, bytearray)):
@@ -601,8 +603,8 @@ def iter_concrete(it, v, node=None):
         return list(v)
     if isinstance(v, dict):
         return list(v.keys())
-    if isinstance(v, LazyMap):
-        raise Unsupported("iteration over a lazily mapped list of symbolic length")
+    if isinstance(v, (LazyMap, SymList)):
+        raise Unsupported("iteration over a list of symbolic length")
     if all_concrete([v]):
         try:
             return list(v)
@@ -619,10 +621,14 @@ def unpack(it, v, n, node=None):
             it.raise_(ValueError, f"not enough/too many values to unpack (expected {n})", node=node)
         return list(v)
     if isinstance(v, LazyMap):
-        ln = z3.Length(v.src.term)
+        ln = v.src.len_t
         if not it.branch(ln == n, node):
             it.raise_(ValueError, f"not enough/too many values to unpack (expected {n})", node=node)
-        return [v.body(seq_elem(it, v.src, i)) for i in range(n)]
+        return [v.body(mk("str", v.src.elem(i))) for i in range(n)]
+    if isinstance(v, SymList):
+        if not it.branch(v.len_t == n, node):
+            it.raise_(ValueError, f"not enough/too many values to unpack (expected {n})", node=node)
+        return [mk("str", v.elem(i)) for i in range(n)]
     if isinstance(v, (SeqVal, SeqRef)):
         t = _seq_term(v)
         if not it.branch(z3.Length(t) == n, node):
@@ -647,13 +653,6 @@ def seq_elem(it, sv: SeqVal, i):
     ti = i if not isinstance(i, SV) else i.term
     if isinstance(ti, int):
         ti = z3.IntVal(ti)
-    src = getattr(sv, "split_src", None)
-    if sv.elem_kind == "str":
-        if src is not None:
-            e = lawbook(it.ctx).split_elem(src, sv.term, ti)
-        else:
-            e = sv.term[ti]
-        return mk("str", e)
     if sv.elem_kind == "byte":
         return mk("int", z3.BV2Int(sv.term[ti]))
     return mk(sv.elem_kind, sv.term[ti])
@@ -697,6 +696,23 @@ def _int_term(it, v, node=None):
     it.raise_(TypeError, "indices must be integers", node=node)
 
 
+def str_slice(it, t, lo, hi):
+    """t[lo:hi] for normalised bounds 0 <= lo <= hi <= len(t): uninterpreted, with the S-laws
+    len = hi - lo, prefix + slice + suffix = t (instantiated), full slice = identity."""
+    from .laws import s_slice
+
+    lb = lawbook(it.ctx)
+    ln = lb.length(t)
+    r = s_slice(t, lo, hi)
+    if lb._once("slice", t, lo, hi):
+        c = it.ctx
+        c.add_fact(lb.length(r) == hi - lo)
+        c.add_fact(z3.Implies(z3.And(lo == 0, hi == ln), r == t))
+        c.add_fact(z3.Implies(lo == 0, lb.concat([r, s_slice(t, hi, ln)]) == t))
+        c.add_fact(lb.length(s_slice(t, hi, ln)) == ln - hi)
+    return r
+
+
 # --------------------------------------------------------------------------- subscripts
 def getitem(it, obj, idx, node=None):
     obj = force(obj)
@@ -724,6 +740,8 @@ def getitem(it, obj, idx, node=None):
                 it.raise_(KeyError, idx, node=node)
             return obj.get_field(idx)
         raise Unsupported("subscript on an object row")
+    if isinstance(obj, SV) and obj.kind == "bytes":
+        obj = SeqVal("byte", obj.term, "bytes")
     if isinstance(obj, (SeqVal, SeqRef)):
         sv = obj if isinstance(obj, SeqVal) else SeqVal(obj.kind, obj.term())
         if isinstance(idx, slice):
@@ -735,25 +753,47 @@ def getitem(it, obj, idx, node=None):
             it.raise_(IndexError, "index out of range", node=node)
         ti = z3.simplify(z3.If(ti < 0, ln + ti, ti))
         return seq_elem(it, sv, SV("int", ti))
+    if isinstance(obj, SymList):
+        ln = obj.len_t
+        if isinstance(idx, slice):
+            if idx.step is not None:
+                raise Unsupported("slice step")
+            lo = z3.IntVal(0) if idx.start is None else norm_index(_int_term(it, idx.start, node), ln)
+            hi = ln if idx.stop is None else norm_index(_int_term(it, idx.stop, node), ln)
+            n = z3.simplify(z3.If(hi - lo < 0, z3.IntVal(0), hi - lo))
+            lo = z3.simplify(lo)
+            return SymList(n, lambda i, _o=obj, _lo=lo: _o.elem(z3.simplify(_lo + i)))
+        ti = _int_term(it, idx, node)
+        if not it.formula_mode and not it.branch(z3.And(ti >= -ln, ti < ln), node):
+            it.raise_(IndexError, "list index out of range", node=node)
+        ti = z3.simplify(z3.If(ti < 0, ln + ti, ti))
+        return mk("str", obj.elem(ti))
     if isinstance(obj, LazyMap):
         raise Unsupported("subscript on lazily mapped list")
     if isinstance(obj, (SV, str)) and (lift(obj)[0] == "str"):
         t = lift(obj)[1]
-        if isinstance(idx, slice):
-            if all_concrete([obj, idx.start, idx.stop, idx.step]):
-                return obj[idx]
-            return mk("str", slice_seq(it, t, idx, node))
-        if all_concrete([obj, idx]):
+        if all_concrete([obj, idx] if not isinstance(idx, slice) else [obj, idx.start, idx.stop, idx.step]):
             try:
                 return obj[idx]
             except IndexError as exc:
                 raise PyRaise(ExcVal(IndexError, exc.args, site=it.site(node))) from None
+        from .laws import s_slice
+
+        lb = lawbook(it.ctx)
+        ln = lb.length(t)
+        if isinstance(idx, slice):
+            if idx.step is not None:
+                raise Unsupported("slice step")
+            lo = z3.IntVal(0) if idx.start is None else norm_index(_int_term(it, idx.start, node), ln)
+            hi = ln if idx.stop is None else norm_index(_int_term(it, idx.stop, node), ln)
+            hi = z3.simplify(z3.If(hi < lo, lo, hi))
+            lo = z3.simplify(lo)
+            return mk("str", str_slice(it, t, lo, hi))
         ti = _int_term(it, idx, node)
-        ln = z3.Length(t)
         if not it.branch(z3.And(ti >= -ln, ti < ln), node):
             it.raise_(IndexError, "string index out of range", node=node)
-        ti = z3.If(ti < 0, ln + ti, ti)
-        return mk("str", z3.SubString(t, ti, 1))
+        ti = z3.simplify(z3.If(ti < 0, ln + ti, ti))
+        return mk("str", str_slice(it, t, ti, ti + 1))
     if isinstance(obj, (bytes, bytearray)) and not all_concrete([idx.start if isinstance(idx, slice) else idx, idx.stop if isinstance(idx, slice) else None]):
         return getitem(it, SeqVal("byte", lift(bytes(obj))[1], "bytes"), idx, node)
     if isinstance(obj, (list, tuple, collections.deque)):
@@ -878,7 +918,11 @@ def getattr_(it, obj, name, node=None):
         it.raise_(AttributeError, f"no local/ghost named {name}", node=node)
     if isinstance(obj, Obj):
         if name in obj.fields:
-            return obj.fields[name]
+            v = obj.fields[name]
+            if type(v).__name__ == "LazyField":
+                v = v.fn(it)
+                obj.fields[name] = v
+            return v
         if name == "__dict__":
             return obj.fields
         if name == "__class__":
